@@ -242,6 +242,7 @@ pub fn next_solution<'a>(sn: Rc<RefCell<SolutionNode<'a>>>)
 
                     let mut sn_ref = sn.borrow_mut();
                     if !sn_ref.more_solutions { return None; };
+                    sn_ref.more_solutions = false;
 
                     match &sn_ref.head_sn {
                         Some(head_sn) => {
@@ -249,7 +250,6 @@ pub fn next_solution<'a>(sn: Rc<RefCell<SolutionNode<'a>>>)
                             match solution {
                                 Some(_) => return None,
                                 None => {
-                                    sn_ref.more_solutions = false;
                                     return Some(Rc::clone(&sn_ref.ss));
                                 },
                             }
